@@ -446,8 +446,7 @@ def run_items():
                 out["evaluations"] += 1
                 key = {"rhs_len": n, "position": pos, "follow": sorted(fol) if fol is not None else None}
                 it = LRItem(prod, pos, fol)
-                if it.production is not prod or it.position != pos or it.follow != (fol or set()) or \
-                        (fol and it.follow is not fol):
+                if it.production is not prod or it.position != pos or it.follow != (fol or set()):
                     _viol(out, "LRItem.__init__", key, {"follow": sorted(it.follow)})
                 if (fol is None or not fol) and LRItem(prod, pos, fol).follow is it.follow:
                     _viol(out, "LRItem.__init__", key, "two items share one default follow set")
@@ -676,7 +675,7 @@ def run_gss():
             ok = (p.root, p.head, p.start_position, p.end_position, p.token, p._solutions) == \
                 (root, None, start, start if end is None else end, tok, None)
             if n_alts:
-                ok = ok and p.possibilities is given and all(a.context is p for a in alts)
+                ok = ok and p.possibilities == given and all(a.context is p for a in alts)
             else:
                 ok = ok and len(p.possibilities) == (1 if tok is not None else 0)
             if not ok:
